@@ -22,7 +22,7 @@ structure Sync (s1 s2 : Sess) : Prop where
   negotiated : s1.negotiated = s2.negotiated
   doRestart : s1.doRestart = s2.doRestart
   first : s1.first = s2.first
-  domain : s1.domain = s2.domain
+  domain : s1.laddr = s2.laddr
   captured : s1.captured = s2.captured
   sni : s1.sni = s2.sni
   trace : s1.trace = s2.trace
@@ -147,14 +147,20 @@ theorem expectHdr_sync : ∀ n s1 s2, Sync s1 s2 → RelRes (expectHdr n s1) (ex
         cases u1 with
         | space => exact ih t1 t2 hs
         | hdr ok => cases ok <;> first | exact ⟨rfl, hs⟩ | exact ⟨rfl, hs.trace⟩
+        | hdrA f t =>
+          show RelRes (acceptHdr f t t1) (acceptHdr f t t2)
+          rw [acceptHdr_eq, acceptHdr_eq, hs.domain]
+          split
+          · exact ⟨rfl, hs⟩
+          · exact ⟨rfl, hs.trace⟩
         | _ => exact ⟨rfl, hs.trace⟩
 
 theorem chooseConfig_sync (s1 s2 : Sess) (h : Sync s1 s2) : Sync (chooseConfig s1) (chooseConfig s2) := by
   refine ⟨h.state, h.tls1, h.tls2, h.hs, h.prot, h.oracle, h.negotiated, h.doRestart, h.first, h.domain,
     ?_, ?_, h.trace, h.tags1, h.tags2, h.stream, h.features⟩
-  · show (negotiateName s1.captured s1.domain).1 = (negotiateName s2.captured s2.domain).1
+  · show (negotiateName s1.captured s1.laddr.dom).1 = (negotiateName s2.captured s2.laddr.dom).1
     rw [h.captured, h.domain]
-  · show some (negotiateName s1.captured s1.domain).2 = some (negotiateName s2.captured s2.domain).2
+  · show some (negotiateName s1.captured s1.laddr.dom).2 = some (negotiateName s2.captured s2.laddr.dom).2
     rw [h.captured, h.domain]
 
 theorem negotiateOne_sync (c : Cached) (res : NegRes) (s1 s2 : Sess) (h : Sync s1 s2) :
